@@ -12,6 +12,11 @@ namespace World
 def isBatch (w : World) (p : Nat) : Bool := (w.part p).kids.isSome
 
 /-- `Buffer._get_part_count` / the sink's count: the parts of a batch, one level. -/
+def leavesOf (w : World) (p : Nat) : List Nat :=
+  match (w.part p).kids with
+  | some l => l
+  | none => [p]
+
 def leafCount (w : World) (p : Nat) : Nat :=
   match (w.part p).kids with
   | some l => l.length
@@ -240,12 +245,14 @@ def finishCycleHandler (w : World) (x : Nat) : World :=
 def genPart (w : World) (x : Nat) : World × Nat :=
   let d := w.dev x
   if d.genBatch == 0 then
-    w.newPart { quality := d.genQuality, value := d.genValue }
+    let (w, p) := w.newPart { quality := d.genQuality, value := d.genValue }
+    ({ w with generated := w.generated ++ [p] }, p)
   else
     let n := d.genBatch.toNat
     let (w, kids) := (List.range n).foldl (fun (acc : World × List Nat) _ =>
       let (w', k) := acc.1.newPart { quality := d.genQuality, value := d.genValue }
       (w', acc.2 ++ [k])) (w, [])
+    let w := { w with generated := w.generated ++ kids }
     w.newPart { quality := 0, value := 0, kids := some kids }
 
 def finishCycle (w : World) (x : Nat) : World :=
@@ -367,6 +374,7 @@ def onReceived (w : World) (x p : Nat) : World :=
 
 /-- `_accept_part(part)`. -/
 def acceptPart (w : World) (x p : Nat) : World :=
+  let w := if (w.dev x).kind == .sink then { w with delivered := w.delivered ++ w.leavesOf p } else w
   let w := w.modDev x (fun d => { d with part := some p })
   let w := w.addHist p x
   let w := w.setWaiting x false false
@@ -522,6 +530,9 @@ def shutdownDev (w : World) (x : Nat) (isFailure : Bool) (lost : Option Nat) : W
 /-- `_fail()`. -/
 def failDev (w : World) (x : Nat) : World :=
   let lost := (w.dev x).part
+  let w := match lost with
+    | some p => { w with lost := w.lost ++ w.leavesOf p }
+    | none => w
   let w := w.modDev x (fun d => { d with part := none })
   let w := w.releaseReserved x
   let w := w.addRec (.failure x w.now lost)
